@@ -11,6 +11,7 @@
 package main
 
 import (
+	"crypto/sha256"
 	"encoding/hex"
 	"encoding/json"
 	"flag"
@@ -264,6 +265,53 @@ type outcome struct {
 	fired               bool
 	mem                 wl.Snap // running instance after the call (if not crashed)
 	memLocked           bool
+	contID              string // keystore created on the running instance after the faulted call (continuation runs)
+	contErr             error
+	contPass            []byte
+}
+
+// issuanceProbe reopens a store after a fault and issues one more address on every branch of every keystore: exactly
+// one key must be added, a key the keystore did not have, at the index after the last one (an operation that was cut
+// short must not leave the key counters behind or ahead of the stored keys).
+func issuanceProbe(dir string, pub []byte) (problems []string, probed int) {
+	defer func() {
+		if r := recover(); r != nil {
+			problems = append(problems, fmt.Sprintf("panic while issuing after the fault: %v", r))
+		}
+	}()
+	w, err := wl.Open(dir, pub, nil)
+	if err != nil {
+		return nil, 0
+	}
+	defer w.Close()
+	for _, ks := range w.Snapshot().Ks {
+		for br := uint32(0); br < 2; br++ {
+			had := map[string]bool{}
+			n := uint32(0)
+			for _, k := range ks.Keys {
+				if k.Branch == br {
+					had[k.Pub] = true
+					n++
+				}
+			}
+			mas, err := w.M.NextAddresses(ks.ID, br == 1, 1)
+			if err != nil || len(mas) != 1 {
+				problems = append(problems, fmt.Sprintf("keystore %s branch %d: NextAddresses(1) after the fault: %d addresses, err %v", ks.ID, br, len(mas), err))
+				continue
+			}
+			probed++
+			pk := mas[0].PubKey()
+			ph := hex.EncodeToString(pk.SerializeCompressed())
+			if had[ph] {
+				problems = append(problems, fmt.Sprintf("keystore %s branch %d: the next issued key %s had been issued before (%d keys stored)", ks.ID, br, ph, n))
+				continue
+			}
+			if ord, ok := w.M.GetPublicKeyOrdinal(pk); !ok || ord != n {
+				problems = append(problems, fmt.Sprintf("keystore %s branch %d: the next issued key has index %d (found %v) after %d stored keys", ks.ID, br, ord, ok, n))
+			}
+		}
+	}
+	return problems, probed
 }
 
 func main() {
@@ -295,6 +343,14 @@ func main() {
 		run.Inconclusive("no fault run or no kill run was judged")
 	}
 	run.Finish("case = one (history, operation, fault point): histories of <= 6 operations over create/import/delete/next/genpub/remark/chpriv/chpub with 1-3 keystores; for each operation every write and every commit is a fault point (failed write, failed commit, crash before commit, crash after commit), each replayed on a fresh copy of the pre-state store; plus real SIGKILLs of a child process executing a history; non-trivial = the injected fault actually fired (or the kill hit a running child) and the store was reopened and compared; distinct by (history, op index, fault point)", run.N(300, 5000))
+}
+
+func trimErr(err error) string {
+	s := err.Error()
+	if len(s) > 50 {
+		s = s[:50]
+	}
+	return s
 }
 
 func faultHistory(run *vh.Run, rng *vh.Rng, hi int) {
@@ -352,7 +408,7 @@ func faultHistory(run *vh.Run, rng *vh.Rng, hi int) {
 			return
 		}
 		// exec on a copy with a plan; returns outcome and the running-instance pre snapshot
-		execOn := func(tag string, plan wl.FaultPlan) (outcome, wl.Snap, *wl.FaultDB, string, bool) {
+		execOn := func(tag string, plan wl.FaultPlan, cont bool) (outcome, wl.Snap, *wl.FaultDB, string, bool) {
 			dst := filepath.Join(base, tag)
 			os.RemoveAll(dst)
 			if err := wl.CopyDir(wd.dir, dst); err != nil {
@@ -389,11 +445,33 @@ func faultHistory(run *vh.Run, rng *vh.Rng, hi int) {
 			if !out.crashed {
 				out.mem = ww.Snapshot()
 			}
+			if cont && !out.crashed {
+				// the user carries on with the running instance: a new keystore under the private passphrase the
+				// wallet accepts now, one address, close
+				out.contPass = wl.FreshPass(rng.Derive("cont", j*1000+len(tag)))
+				if names := ww.M.ListKeystoreNames(); len(names) > 0 {
+					out.contPass = nil
+					for _, k := range []string{"old", "new"} {
+						if c, ok := privs[k]; ok && out.contPass == nil {
+							if _, err := ww.M.ExportKeystore(names[0], c); err == nil {
+								out.contPass = c
+							}
+						}
+					}
+				}
+				if out.contPass != nil {
+					seed := sha256.Sum256([]byte(fmt.Sprintf("continuation-%d-%d-%s", hi, j, tag)))
+					out.contID, out.contErr = ww.M.NewKeystore(out.contPass, seed[:], "continuation", wl.Net(), wl.FastScrypt)
+					if out.contErr == nil {
+						ww.M.NextAddresses(out.contID, false, 1)
+					}
+				}
+			}
 			ww.Close()
 			return out, pre, fdb, dst, true
 		}
 		// 1. fault-free run: measure w and c, learn the complete effect
-		ref, _, cnt, refDir, ok := execOn("ref", wl.FaultPlan{})
+		ref, _, cnt, refDir, ok := execOn("ref", wl.FaultPlan{}, false)
 		if !ok {
 			run.Drop("cannot prepare fault-free reference run")
 			return
@@ -432,7 +510,7 @@ func faultHistory(run *vh.Run, rng *vh.Rng, hi int) {
 			if !run.Want(ci) {
 				continue
 			}
-			out, pre, fdb, dir, ok := execOn(fmt.Sprintf("f%d", pi), plan)
+			out, pre, fdb, dir, ok := execOn(fmt.Sprintf("f%d", pi), plan, false)
 			if !ok {
 				run.Drop("cannot prepare fault run")
 				continue
@@ -477,7 +555,44 @@ func faultHistory(run *vh.Run, rng *vh.Rng, hi int) {
 			}
 			// reopen without faults
 			got, err := openExt(dir, pubs, privs)
+			if err == nil && (op.Kind == "next" || op.Kind == "genpub" || op.Kind == "import" || op.Kind == "create") {
+				if probs, n := issuanceProbe(dir, pubs[got.Pub]); len(probs) > 0 {
+					run.Violate(ci, "issuance-after-fault-reuses-or-skips-a-key", attrs, detail(map[string]interface{}{"problems": probs}))
+				} else {
+					run.Count("issuance_probes_after_fault", int64(n))
+				}
+			}
 			os.RemoveAll(dir)
+			// the faults that leave the process running (all of them for passphrase changes, one in six otherwise) are
+			// executed again, and this time the user
+			// carries on with the running instance (new keystore, address), closes and reopens
+			if err == nil && !out.crashed && (plan.Kind == "write" || plan.Kind == "commit") && (op.Kind == "chpub" || op.Kind == "chpriv" || (hi+j+pi)%6 == 0) {
+				o2, _, _, dir2, ok2 := execOn(fmt.Sprintf("c%d", pi), plan, true)
+				if ok2 && !o2.crashed && o2.contPass != nil {
+					run.Count("continuations_after_faulted_operation", 1)
+					p2 := map[string][]byte{"cont": o2.contPass}
+					for k, v := range privs {
+						p2[k] = v
+					}
+					got2, err2 := openExt(dir2, pubs, p2)
+					switch {
+					case err2 != nil:
+						run.Violate(ci, "wallet-does-not-open-after-continuing-past-a-faulted-operation", attrs, detail(map[string]interface{}{"err": err2.Error(),
+							"continuation": "NewKeystore + NextAddresses on the running instance after the faulted call, close, reopen", "faulted_call_returned": fmt.Sprint(o2.err), "new_keystore_err": fmt.Sprint(o2.contErr)}))
+					case o2.contErr != nil:
+						run.Count("continuation_keystore_refused(observation):"+trimErr(o2.contErr), 1)
+					default:
+						found := false
+						for _, k := range got2.Snap.Ks {
+							found = found || k.ID == o2.contID
+						}
+						if !found {
+							run.Violate(ci, "keystore-created-after-faulted-operation-lost", attrs, detail(map[string]interface{}{"keystore": o2.contID, "faulted_call_returned": fmt.Sprint(o2.err)}))
+						}
+					}
+				}
+				os.RemoveAll(dir2)
+			}
 			if err != nil {
 				run.Violate(ci, "wallet-does-not-open-after-fault", attrs, detail(map[string]interface{}{"err": err.Error()}))
 				run.Case(vh.HashS(fmt.Sprint(hi, j, pi)), out.fired)
